@@ -833,6 +833,7 @@ MUTANTS = [
         m_stack_state.store(stack_state::notified, std::memory_order_relaxed);""")]),
     dict(name='c01-seed4-execute-tests-the-slot-before-registering', prop='C01', clause='D9', edits=[('src/tbb/arena.cpp', '                a->my_exit_monitors.prepare_wait(waiter);\n                if (!wo.continue_execution()) {\n                    a->my_exit_monitors.cancel_wait(waiter);\n                    break;\n                }\n                index2 = a->occupy_free_slot</*as_worker*/false>(*td);\n                if (index2 != arena::out_of_arena) {\n                    a->my_exit_monitors.cancel_wait(waiter);\n                    nested_arena_context scope(*td, *a, index2 );', '                index2 = a->occupy_free_slot</*as_worker*/false>(*td);\n                if (index2 != arena::out_of_arena) {\n                    nested_arena_context scope(*td, *a, index2 );'), ('src/tbb/arena.cpp', '                    break;\n                }\n                a->my_exit_monitors.commit_wait(waiter);', '                    break;\n                }\n                a->my_exit_monitors.prepare_wait(waiter);\n                if (!wo.continue_execution()) {\n                    a->my_exit_monitors.cancel_wait(waiter);\n                    break;\n                }\n                a->my_exit_monitors.commit_wait(waiter);')]),
     dict(name='c02-seed4-execute-tests-the-slot-before-registering', prop='C02', clause='D2', edits=[('src/tbb/arena.cpp', '                a->my_exit_monitors.prepare_wait(waiter);\n                if (!wo.continue_execution()) {\n                    a->my_exit_monitors.cancel_wait(waiter);\n                    break;\n                }\n                index2 = a->occupy_free_slot</*as_worker*/false>(*td);\n                if (index2 != arena::out_of_arena) {\n                    a->my_exit_monitors.cancel_wait(waiter);\n                    nested_arena_context scope(*td, *a, index2 );', '                index2 = a->occupy_free_slot</*as_worker*/false>(*td);\n                if (index2 != arena::out_of_arena) {\n                    nested_arena_context scope(*td, *a, index2 );'), ('src/tbb/arena.cpp', '                    break;\n                }\n                a->my_exit_monitors.commit_wait(waiter);', '                    break;\n                }\n                a->my_exit_monitors.prepare_wait(waiter);\n                if (!wo.continue_execution()) {\n                    a->my_exit_monitors.cancel_wait(waiter);\n                    break;\n                }\n                a->my_exit_monitors.commit_wait(waiter);')]),
+    dict(name='c16-seed6-execute-tests-the-slot-before-registering', prop='C16', clause='D1', edits=[('src/tbb/arena.cpp', '                a->my_exit_monitors.prepare_wait(waiter);\n                if (!wo.continue_execution()) {\n                    a->my_exit_monitors.cancel_wait(waiter);\n                    break;\n                }\n                index2 = a->occupy_free_slot</*as_worker*/false>(*td);\n                if (index2 != arena::out_of_arena) {\n                    a->my_exit_monitors.cancel_wait(waiter);\n                    nested_arena_context scope(*td, *a, index2 );', '                index2 = a->occupy_free_slot</*as_worker*/false>(*td);\n                if (index2 != arena::out_of_arena) {\n                    nested_arena_context scope(*td, *a, index2 );'), ('src/tbb/arena.cpp', '                    break;\n                }\n                a->my_exit_monitors.commit_wait(waiter);', '                    break;\n                }\n                a->my_exit_monitors.prepare_wait(waiter);\n                if (!wo.continue_execution()) {\n                    a->my_exit_monitors.cancel_wait(waiter);\n                    break;\n                }\n                a->my_exit_monitors.commit_wait(waiter);')]),
     dict(name='c20-seed5-isolated-waits-skip-the-resume-stream', prop='C20', clause='D2', edits=[(TDH, '    bool stealing_is_allowed = can_steal();\n', '    bool stealing_is_allowed = can_steal();\n    const bool streams_allowed = isolation == no_isolation;\n'), (TDH, '        else if ((t = get_stream_or_critical_task(ed, a, resume_stream, resume_hint, isolation, critical_allowed))) {', '        else if (streams_allowed\n                 && (t = get_stream_or_critical_task(ed, a, resume_stream, resume_hint, isolation, critical_allowed))) {'), (TDH, '        else if (fifo_allowed && isolation == no_isolation\n                 && (t = get_stream_or_critical_task(ed, a, fifo_stream, fifo_hint, isolation, critical_allowed))) {', '        else if (streams_allowed && fifo_allowed\n                 && (t = get_stream_or_critical_task(ed, a, fifo_stream, fifo_hint, isolation, critical_allowed))) {')]),
     dict(name='c20-resume-stream-gated-by-isolation-directly', prop='C20', clause='D2', edits=[(TDH, '        else if ((t = get_stream_or_critical_task(ed, a, resume_stream, resume_hint, isolation, critical_allowed))) {', '        else if (isolation == no_isolation\n                 && (t = get_stream_or_critical_task(ed, a, resume_stream, resume_hint, isolation, critical_allowed))) {')]),
     dict(name='c20-critical-stream-filter-without-the-resume-exemption', prop='C20', clause='D2', edits=[('src/tbb/task_stream.h', '            if( result && (task_accessor::isolation(*result) == isolation || task_accessor::is_resume_task(*result)) ) {', '            if( result && task_accessor::isolation(*result) == isolation ) {')]),
